@@ -415,6 +415,15 @@ Definition unknown (r : route) (ps : params) (b : backend) (cfg : tree) : Prop :
            end
        end.
 
+(* The property's reading of "unknown" INCLUDING the two DELETE routes: a DELETE names an unknown cluster /
+   consumer group when storage would answer StorageFetchConsumer for that pair with nil. *)
+Definition delete_names_unknown_group (r : route) (ps : params) (b : backend) : Prop :=
+  is_delete_route r = true /\
+  storage_reply b (mk_sreq StorageFetchConsumer (param ps s_cluster) (param ps s_consumer) []) = None.
+
+Definition unknown_full (r : route) (ps : params) (b : backend) (cfg : tree) : Prop :=
+  unknown r ps b cfg \/ delete_names_unknown_group r ps b.
+
 (* ------------------------------------------------------------------------------------------------ *)
 (* the registrations the model covers (the documented API), and the regenerated route table          *)
 (* ------------------------------------------------------------------------------------------------ *)
@@ -737,3 +746,26 @@ Definition world_evaluator (w : world) (override : Z) (c g : bytes) (showall : b
 
 Definition world_backend (w : world) (override : Z) (ready : bool) : backend :=
   mk_backend (world_storage w override) (world_evaluator w override) ready.
+
+(* ------------------------------------------------------------------------------------------------ *)
+(* the whole server: router + handlers                                                               *)
+(* ------------------------------------------------------------------------------------------------ *)
+
+(* defaultHandler.ServeHTTP (router.NotFound): http.Error(w, <JSON text with error=true and a message>, 404);
+   http.Error sets Content-Type text/plain, there is no request block *)
+Definition default_handler : outcome := Resp 404 false (BJson true true false None).
+
+(* A request that matches a registration runs its handler.  For a request that matches none, httprouter
+   (v1.3.0, all options at their defaults except NotFound -- checked by [route_table_ok]) either answers at
+   router level (301/307 redirect to the canonical path, 405 + Allow when the path is registered under another
+   method, 200 + Allow for OPTIONS) or calls NotFound; [serve] models the NotFound case, the router-level
+   answers are httprouter's (trusted, and accepted by the per-case oracle). *)
+Definition serve (tbl : list brow) (method path : bytes) (reqbody : Z) (b : backend) (cfg : tree) : result :=
+  match dispatch tbl method path with
+  | Some (row, ps) =>
+      match br_route row with
+      | Some r => handle r ps reqbody b cfg
+      | None => ([], Crash)            (* a registration without a model case: excluded by [route_table_ok] *)
+      end
+  | None => ([], default_handler)
+  end.
